@@ -1479,3 +1479,21 @@ def _clipped_template_size(repo, ob, failure):
 GENERATORS.insert(0, ("C18.place.shape_size", _clipped_template_size))
 GENERATORS.insert(0, ("C18.place.circle", _clipped_template_size))
 GENERATORS.insert(0, ("C18.place.rectlike", _clipped_template_size))
+
+
+def _instance_shorthand_and_deltas(repo, ob, failure):
+    """a placed instance equals the template written out by hand: position shorthand on the template and dw / dh included"""
+    import re as _re
+    cases = [('<svg><specs><circle id="c" xy="0" r="$r"/></specs><reuse href="#c" r="4" x="10" y="20"/></svg>', r'<circle [^>]*>', 'cx="14" cy="24" r="4"'),
+             ('<svg><specs><ellipse id="e" xy="0" rxy="$r 1"/></specs><reuse href="#e" r="4" x="10" y="20"/></svg>', r'<ellipse [^>]*>', 'cx="14" cy="21" rx="4" ry="1"'),
+             ('<svg><specs><rect id="t" wh="$s" dwh="2"/></specs><reuse href="#t" s="4" x="10" y="20"/></svg>', r'<rect [^>]*>', 'x="10" y="20" width="6" height="6"')]
+    for doc, pat, want in cases:
+        r = run_svgdx(repo, doc, args=("--no-auto-styles",))
+        m = _re.search(pat, r["out"])
+        if r["rc"] == 0 and m and want not in m.group(0):
+            return {"input": doc, "args": ["--no-auto-styles"], "observed": m.group(0), "expected": "... %s ..." % want}
+    return None
+
+
+GENERATORS.insert(0, ("C18.instance.size_includes", _instance_shorthand_and_deltas))
+GENERATORS.insert(0, ("C18.place.position_shorthand", _instance_shorthand_and_deltas))
